@@ -202,6 +202,9 @@ func checkC14(r *Run) {
 	c := buildCorpus(r, corpusOpts{N: n, Formats: []string{"jsonschema", "openapi", "cue"}, Profile: "general,defaults,constraints", Langs: []string{"go"}, Builders: true, Converters: true,
 		DocsPerObj: r.n(5, 9), Tag: "c14", Extras: c09Extras})
 	defer c.cleanup()
+	// composed builders (one type, same-named builders in several packages): the conversion plans of the real
+	// ConverterGenerator are checked against the builders they delegate to (c14_compose.go)
+	checkC14Compose(r)
 	// the fixed veneer workloads are configurations cog generates builders and converters for: a run that now ends in
 	// an error (cog's own formatting step rejecting a converter it printed) has no converter to invert anything
 	for _, cs := range c.Schemas {
